@@ -358,9 +358,11 @@ namespace {
     }
 
     PTRef polyToPTRefSubstitution(ArithLogic & logic, PTRef const var, LAPoly & poly) {
-        if ((logic.hasUFs() or logic.hasArrays()) and logic.isVar(var)) {
-            if (std::ranges::any_of(poly, [&logic](auto const & term) {
-                    return term.var != PTRef_Undef and not logic.isVar(term.var);
+        if (logic.hasUFs() or logic.hasArrays()) {
+            // The replacement must not mention a non-variable term: such a term can contain the key of another
+            // substitution (f(x) -> h(g(y)), g(y) -> k(f(x))) and the transitive closure would not terminate
+            if (std::ranges::any_of(poly, [&logic, var](auto const & term) {
+                    return term.var != PTRef_Undef and term.var != var and not logic.isVar(term.var);
                 })) {
                 return PTRef_Undef;
             }
